@@ -528,13 +528,13 @@ static void space_wrap(void)
 		/* build the prefix */
 		while (produced < P) {
 			unsigned left = P - produced;
-			if (style == 0 || left < 3 || produced == 0) { pre[n++] = lit((produced * 7 + 1) & 0xFF); produced += 1; }
+			if (style == 0 || left < 3 || produced == 0) { pre[n++] = lit((produced * 7 + 1 + (produced >> 8) * 29) & 0xFF); produced += 1; }
 			else if (style == 1) {
 				unsigned l = left >= maxlen + 3 || left == maxlen ? maxlen : (left > maxlen ? left - maxlen >= 3 ? maxlen : 3 : left);
 				if (l > left) l = left;
 				pre[n++] = cpy(produced > 40 ? 37 : 0, l); produced += l;
 			} else {
-				if ((n & 3) == 0) { pre[n++] = lit((produced * 13) & 0xFF); produced += 1; }
+				if ((n & 3) == 0) { pre[n++] = lit((produced * 13 + (produced >> 8) * 5) & 0xFF); produced += 1; }
 				else {
 					unsigned l = 3 + (n * 11) % 14;
 					if (l > left) l = left;
